@@ -23,7 +23,7 @@ for f in sorted(glob.glob("/tmp/wt/verify_report*.txt")):
             parts = line.split()
             verify[parts[1]] = line.strip()[len("RESULT "):]
 table = []
-for d in sorted(glob.glob("/tmp/wt/out/C*/m*")):
+for d in sorted(glob.glob("/tmp/wt/out/*/m*")):
     pdir = d.split("/")[-2]
     prop = re.search(r"C\d\d", pdir).group(0)
     mid = "%s-%s" % (pdir, d.split("/")[-1])
